@@ -11,8 +11,10 @@
    * [C17_disjoint] (any table that is history free) and [C17_disjoint_partial] (any table, operations whose
      entries do not read residue) quantify over ALL interleavings, all initial stores (= arbitrary unrelated
      history), all failure points of every call.
-   * The generated setters declared with types=() refute the unconditional statement on the current tree:
-     [C17_setter_history_free_refuted]; [C17_setter_history_free_partial] holds for every other declaration.
+   * Since fix e35286f (types=() decided per call, no `nonlocal` rebinding) the generated table is history free:
+     [C17_history_free_now], and the statements hold unconditionally of the current source:
+     [C17_disjoint_now], [C17_setter_history_free_now].  [C17_latching_declaration_breaks_it] records why a
+     declaration that rebinds its closure cell (the code before that fix) cannot satisfy the property.
 *)
 From Coq Require Import List String Ascii ZArith Bool.
 From MPV Require Import Model.Wire Model.Iso Proofs.IsoProofs Gen.Globals.
@@ -29,11 +31,17 @@ Theorem C17_table_consistent : table_consistent Globals.table = true.
 Proof. vm_compute. reflexivity. Qed.
 Print Assumptions C17_table_consistent.
 
-(* every site / entry of the current source that is NOT history free is the closure cell of a generated
-   property declared with types=() (known finding F-C17-types-latch); no copy hooks exist *)
+(* every site / entry that is not history free would have to be the closure cell of a latching generated
+   property (none is left since e35286f); no copy hooks exist *)
 Theorem C17_globals_obligation : only_latches_dirty Globals.table = true.
 Proof. vm_compute. reflexivity. Qed.
 Print Assumptions C17_globals_obligation.
+
+(* the current source: every own site is constant, never read, or reset by every entry point before it is
+   read; no entry has a dirty row; no copy hooks; no generated property latches *)
+Theorem C17_history_free_now : history_free Globals.table = true.
+Proof. vm_compute. reflexivity. Qed.
+Print Assumptions C17_history_free_now.
 
 (* read_input_syntax kills reading_queue before anything reads it; MCNP_Parser.parse kills the shared log *)
 Theorem C17_reset_flags_hold : flags_of Globals.table = mk_rflags true true.
@@ -55,6 +63,14 @@ Theorem C17_disjoint : forall T A ops st1 st2,
   outputs_of A (snd (run T st1 ops)) = outputs_of A (snd (run T st2 (ops_of A ops))).
 Proof. exact run_isolated_history_free. Qed.
 Print Assumptions C17_disjoint.
+
+(* ... which the current source is *)
+Theorem C17_disjoint_now : forall A ops st1 st2,
+  forallb (op_side A) ops = true ->
+  agree A (st_heap st1) (st_heap st2) -> heap_closed (st_heap st1) -> heap_closed (st_heap st2) ->
+  outputs_of A (snd (run Globals.table st1 ops)) = outputs_of A (snd (run Globals.table st2 (ops_of A ops))).
+Proof. intros. apply run_isolated_history_free; auto using C17_history_free_now. Qed.
+Print Assumptions C17_disjoint_now.
 
 (* the same for any table, restricted to operations whose entries never read residue and that are not
    latching setters: this is what holds of the current source *)
@@ -121,24 +137,43 @@ Theorem C17_setter_history_free_partial : forall T h1 h2 l p sc vc,
 Proof. exact setter_history_free. Qed.
 Print Assumptions C17_setter_history_free_partial.
 
-(* a latching declaration refutes it: after one call on an instance of class A, a call on an instance of
-   an unrelated class B with a B value is rejected, although it is accepted in a fresh process *)
-Theorem C17_setter_history_free_refuted : forall T g,
+(* the current source: acceptance of any generated-setter call is independent of all earlier calls *)
+Theorem C17_setter_history_free_now : forall h1 h2 l p sc vc,
+  accepts Globals.table (after Globals.table l h1) p sc vc = accepts Globals.table (after Globals.table l h2) p sc vc.
+Proof. intros. apply setter_history_free_table. exact C17_history_free_now. Qed.
+Print Assumptions C17_setter_history_free_now.
+
+Theorem C17_no_latching_now : latching_props Globals.table = [].
+Proof. vm_compute. reflexivity. Qed.
+Print Assumptions C17_no_latching_now.
+
+(* declarations with types=() now check against the class of the instance of THIS call *)
+Example C17_self_typed_now :
+  accepts Globals.table [] "Surface.periodic_surface" "AxisPlane" "AxisPlane" = true
+  /\ accepts Globals.table (after Globals.table [] [("Surface.periodic_surface", "AxisPlane", "AxisPlane")])
+       "Surface.periodic_surface" "GeneralPlane" "GeneralPlane" = true
+  /\ accepts Globals.table [] "Surface.periodic_surface" "AxisPlane" "GeneralPlane" = false.
+Proof. vm_compute. repeat split; reflexivity. Qed.
+
+(* why the code before e35286f could not satisfy the property: a declaration that rebinds its closure cell on
+   first use (latching) accepts a call in a fresh process and rejects the same call after one call on an
+   instance of an unrelated class *)
+Theorem C17_latching_declaration_breaks_it : forall T g,
   find_prop T (g_name g) = Some g -> g_latching g = true ->
   assoc_anc (t_classes T) "C17_B" = [] ->
   accepts T (after T [] []) (g_name g) "C17_B" "C17_B" = true /\
   accepts T (after T [] [(g_name g, "C17_A", "C17_A")]) (g_name g) "C17_B" "C17_B" = false.
 Proof. exact latch_refutes. Qed.
-Print Assumptions C17_setter_history_free_refuted.
+Print Assumptions C17_latching_declaration_breaks_it.
 
-(* the witness on the generated table, with real classes: periodic_surface set first on an AxisPlane (PX)
-   latches AxisPlane; a later call on a GeneralPlane (or any surface that is not an AxisPlane) is rejected.
-   (vacuous once no declaration latches any more) *)
-Definition latch_witness (T : Iso.table) (c1 c2 : string) (g : gprop) : bool :=
-  accepts T [] (g_name g) c2 c2 && negb (accepts T (after T [] [(g_name g, c1, c1)]) (g_name g) c2 c2).
-Example C17_latch_witness_now :
-  forallb (latch_witness Globals.table "AxisPlane" "GeneralPlane") (latching_props Globals.table) = true.
-Proof. vm_compute. reflexivity. Qed.
+Definition old_decl : gprop := mk_gprop "Surface.periodic_surface" "Surface" true [] true None.
+Definition old_table : Iso.table := mk_table [] [] [old_decl] (t_classes Globals.table) [] [].
+Example C17_latching_hyp_satisfiable :
+  find_prop old_table (g_name old_decl) = Some old_decl /\ g_latching old_decl = true
+  /\ assoc_anc (t_classes old_table) "C17_B" = []
+  /\ accepts old_table (after old_table [] [("Surface.periodic_surface", "AxisPlane", "AxisPlane")])
+       "Surface.periodic_surface" "GeneralPlane" "GeneralPlane" = false.
+Proof. vm_compute. repeat split; reflexivity. Qed.
 
 Example C17_partial_hyp_satisfiable :
   exists g, find_prop Globals.table "Surface.transform" = Some g /\ g_latching g = false
